@@ -725,7 +725,7 @@ func main() {
 
 		// ---- Space C: really submitted chains
 		if pi == 0 || r.Thorough() {
-			cBodies := probe.Bodies([]string{"PA", "PB", "DA", "MV", "NT", "FL", "C2"}, r.QT(1, 2), "")
+			cBodies := probe.Bodies([]string{"PA", "PB", "DA", "MV", "NT", "FL", "C2"}, 2, "")
 			var nc int64
 			var jobs [][2]int
 			for i := range cBodies {
@@ -1103,11 +1103,18 @@ func observations(w *probe.Worker, pre refState) {
 // menu are dry-run; oracle = metamorphic (deleting the failed transactions changes nothing) + the later successful
 // retry must produce exactly what it produces without the earlier failed attempt.
 func spaceD2(w *probe.Worker) {
+	seedFailed := false
 	commit := func(tx *types.Transaction, what string) {
 		polyenv.GlobalHeight = w.Ch.L.GetCurrentBlockHeight()
 		res, _, err := w.Commit([]*types.Transaction{tx})
 		if err != nil || len(res.Notify) != 1 || res.Notify[0].State != event.CONTRACT_STATE_SUCCESS {
-			r.HarnessError("D2 seed %s failed: %v", what, err)
+			vmu.Lock()
+			nv := len(viols)
+			vmu.Unlock()
+			if nv == 0 {
+				r.HarnessError("D2 seed %s failed: %v", what, err)
+			}
+			seedFailed = true
 		}
 	}
 	q := ccm.Quorum(len(vals))
@@ -1124,6 +1131,11 @@ func spaceD2(w *probe.Worker) {
 		commit(ccm.VoteImport(11, 7, msg, vals[i], uint32(100+i)), "vote")
 	}
 	commit(ccm.BlackTx(12, false, 200, polyenv.Multi(vals)), "blackChain(12)")
+	if seedFailed {
+		r.Class("real-tx-fail-after-writes")
+		r.Note("D2_skipped", "seed could not be committed on code that already violates C15")
+		return
+	}
 	polyenv.GlobalHeight = w.Ch.L.GetCurrentBlockHeight()
 	last := vals[q-1]
 	menu := []realTx{
@@ -1139,7 +1151,17 @@ func spaceD2(w *probe.Worker) {
 	r0, e0 := w.Exec([]*types.Transaction{menu[0].mk(1)})
 	r1, e1 := w.Exec([]*types.Transaction{menu[1].mk(1), menu[0].mk(2)})
 	if e0 != nil || e1 != nil || r0.Notify[0].State != event.CONTRACT_STATE_FAIL || r1.Notify[1].State != event.CONTRACT_STATE_SUCCESS || len(r1.CrossHashes) != 1 {
-		r.HarnessError("D2 scenario not as designed: alone=%v afterWhite=%v hashes=%d", r0.Notify[0].State, r1.Notify[1].State, len(r1.CrossHashes))
+		vmu.Lock()
+		nv := len(viols)
+		vmu.Unlock()
+		if nv == 0 {
+			r.HarnessError("D2 scenario not as designed: alone=%v afterWhite=%v hashes=%d", r0.Notify[0].State, r1.Notify[1].State, len(r1.CrossHashes))
+		}
+		// the code under test already violated the property in the earlier spaces (e.g. a mutant): the real-contract
+		// scenario cannot be set up on top of it; do not mask those violations
+		r.Class("real-tx-fail-after-writes")
+		r.Note("D2_skipped", "scenario could not be established on code that already violates C15")
+		return
 	}
 	// the failing attempt really is past its writes: the same call on a world whose target is not blacklisted
 	// writes doneTx/voteInfo/request (3 keys) — and with the blacklist the only difference is the final check
